@@ -4,19 +4,25 @@ package main
 //
 //   (seq)   what is yielded is, at every moment, a prefix of 1,2,3,… (the concatenation of the pages in
 //           page order then in-page order): no item twice, none skipped, none foreign — under every call
-//           mix, fault, stop and timing;
-//   (all)   when the iteration ends by itself (no fault, no stop) every item of the collection was yielded
-//           (stream: every item of every page handed to the paginator, every item published before
-//           DryUp(); all of them when DryUp was never called);
+//           mix, stop and timing; under a scripted failure: for everything yielded before the paginator
+//           reported the end;
+//   (all)   when the iteration ends by itself (no failure, no stop) every item of the collection was
+//           yielded; stream: every item of every page handed to the paginator, all items when the stream
+//           reached its known ending, and — while the consumer kept calling — every item published
+//           before DryUp();
 //   (idem)  HasNext is idempotent: true,true / false,false without an intervening GetNext;
 //   (stop)  no call that starts after Stop/Close/cancel returned yields an item;
-//   (ctor)  a constructor whose first page fetch or first GetItemIterator failed returns an error;
+//   (ctor)  a constructor whose first page fetch or first GetItemIterator failed returns an error (never
+//           (nil, nil), never a paginator with a nil error); a healthy first page gives a paginator;
 //   (dry)   a stream with a future never reports its end before DryUp() was called (logical order), nor
-//           earlier than grace after DryUp() (virtual clock, up to the polling granularity tol);
-//   (term)  after DryUp()+grace with nothing more published the iteration ends (virtual-time bound 30x).
+//           earlier than grace after DryUp() (virtual clock, up to the polling granularity Spec.tol);
+//   (term)  after DryUp()+grace with nothing more published the iteration ends (virtual-time bound:
+//           30 x (grace+tol) after the last scripted event); a blocked bubble is a hang.
 //
-// Don't care: error kinds; what HasNext answers after a fault (only (seq) applies then); items published
-// after DryUp(); whether a failed fetch can be retried; anything about GetCurrentPage/IsRunningDry.
+// Don't care: error kinds; what HasNext/GetNext answer after a scripted failure made the paginator report
+// the end (retries); items published after DryUp(); items published before DryUp() when the consumer
+// itself stayed away until grace had elapsed; ends earlier than DryUp()+grace by less than tol;
+// GetCurrentPage/IsRunningDry; behaviour with fetch functions that ignore a cancelled context.
 
 import (
 	"fmt"
